@@ -6,7 +6,7 @@ the body is being read chunk by chunk by `_body_read`).
 
 Python objects with mutable attributes become records that are passed through; a method that
 may raise returns `Except Err _`.  Positions inside a chunk are `Nat` (the code never uses a
-negative index: `Lemmas/MultipartTotal.lean`), section ends relative to a chunk are `Int`
+negative index: the section ends every method returns lie inside the chunk, `eat_total`, `scan_found_bounds` in `Lemmas/`), section ends relative to a chunk are `Int`
 because a delimiter or a `CRLFCRLF` may have started in an earlier chunk.
 
 `trest_len` of the source is always `len(trest)`; only `trest` is kept.
@@ -76,7 +76,7 @@ def eatTail (tok chunk : Bytes) (start : Nat) (trest : Option Bytes) : Except Er
 
 /-- the `while True` block loop of `_eat_data`, one token length per round.  The first argument
 bounds the number of rounds; running out of it stands for a loop that does not end
-(`RuntimeError` is not raised by the source: `eatData_never_out_of_fuel`). -/
+(`RuntimeError` is not raised by the source; never reached: `eatData_refines`). -/
 def eatBlocks (tok chunk : Bytes) : Nat → Nat → Option Bytes → Except Err EatOut
   | 0, _, _ => .error .runtimeError
   | fuel + 1, start, trest =>
@@ -283,7 +283,7 @@ structure IterOut where
 
 /-- the `while True` loop of `iter_markup`.  `cur`, `ass` (= `abs_start_section`) and `sns`
 (= `start_next_sec`) are the loop's local variables; `acc` the sections yielded so far. The first
-argument bounds the rounds (`iterMarkup_never_out_of_fuel`). -/
+argument bounds the rounds (never reached: `parseChunks_total`, `Props.C06.markup_total`). -/
 def iterLoop (chunk : Bytes) : Nat → Markuper → CurMeth → Int → Nat → List Markup → IterOut
   | 0, mk, _, _, _, acc => ⟨mk, acc, some .runtimeError⟩
   | fuel + 1, mk, cur, ass, sns, acc =>
